@@ -138,6 +138,9 @@ fn history_field_mutations(base: &pb::HistoryProof) -> Vec<(&'static str, Vec<u8
     apply(&|m| { if let Some(u) = m.update_proofs.first_mut() { u.epoch = None; } });
     apply(&|m| { if let Some(u) = m.update_proofs.first_mut() { u.version = None; } });
     apply(&|m| { if let Some(u) = m.update_proofs.first_mut() { u.value = None; } });
+    apply(&|m| { if let Some(u) = m.update_proofs.last_mut() { u.value = None; } });
+    apply(&|m| { for u in m.update_proofs.iter_mut() { u.value = None; } });
+    apply(&|m| { if let Some(u) = m.update_proofs.last_mut() { u.commitment_nonce = None; } });
     apply(&|m| { if let Some(u) = m.update_proofs.first_mut() { u.existence_vrf_proof = None; } });
     apply(&|m| { if let Some(u) = m.update_proofs.first_mut() { u.existence_proof.clear(); } });
     apply(&|m| { if let Some(u) = m.update_proofs.first_mut() { u.commitment_nonce = None; } });
@@ -268,6 +271,7 @@ pub async fn wire_history<TC: Configuration>(cx: &mut Cx, r: &mut Rng, epochs: u
                 cx.note(format!("C19 history proof of {} bytes", bytes.len()));
                 let vp = HistoryVerificationParams::Default { history_params: hp };
                 let orig = key_history_verify::<TC>(&pk, eh.1, eh.0, al.clone(), p.clone(), vp).map(|rs| rs.iter().map(|x| (x.epoch, x.version, x.value.0.clone())).collect::<Vec<_>>());
+                let orig_missing = key_history_verify::<TC>(&pk, eh.1, eh.0, al.clone(), p.clone(), HistoryVerificationParams::AllowMissingValues { history_params: hp }).map(|rs| rs.iter().map(|x| (x.epoch, x.version, x.value.0.clone())).collect::<Vec<_>>());
                 match pb::HistoryProof::parse_from_bytes(&bytes).map_err(|e| e.to_string()).and_then(|m| HistoryProof::try_from(&m).map_err(|e| e.to_string())) {
                     Ok(q) => {
                         if q != p {
@@ -294,6 +298,31 @@ pub async fn wire_history<TC: Configuration>(cx: &mut Cx, r: &mut Rng, epochs: u
                         Ok(dec) => {
                             cx.emit(format!("wdec_history {}", hexs(&mb)), match &dec { Ok(q) => format!("ok {}", ser_history(q)), Err(()) => "err".into() });
                             if let Ok(q) = dec {
+                                // a client that tolerates tombstoned values must not be told another story either
+                                let vpm = HistoryVerificationParams::AllowMissingValues { history_params: hp };
+                                match catch_unwind(AssertUnwindSafe(|| key_history_verify::<TC>(&pk, eh.1, eh.0, al.clone(), q.clone(), vpm).map(|rs| rs.iter().map(|x| (x.epoch, x.version, x.value.0.clone())).collect::<Vec<_>>()).map_err(|_| ()))) {
+                                    Err(e) => cx.fail(format!("C19 [cfg {}]: PANIC verifying (missing values allowed) a decoded {} history encoding: {}", cfg, what, panic_msg(e))),
+                                    Ok(Ok(v)) => {
+                                        // the opted-in tombstone (an empty value standing for the true one) is the verifier's
+                                        // documented behaviour (C07), and K2 is C07's known finding; anything else is the wire's doing
+                                        match orig_missing.as_ref().ok() {
+                                            None => cx.fail(format!("C19 [cfg {}]: a {} history encoding decodes to a proof verifying (missing values allowed) although the original does not", cfg, what)),
+                                            Some(o) => {
+                                                let same_mod_tomb = v.len() == o.len() && v.iter().zip(o.iter()).all(|(g, w)| g.0 == w.0 && g.1 == w.1 && (g.2 == w.2 || g.2.is_empty()));
+                                                let k2 = v.len() == o.len() && v.iter().zip(o.iter()).all(|(g, w)| g.1 == w.1 && (g.0 == w.0 || (g.1 == 1 && g.2.is_empty())) && (g.2 == w.2 || g.2.is_empty()));
+                                                if same_mod_tomb {
+                                                    cx.stat("missing_allowed_same");
+                                                } else if k2 {
+                                                    writeln!(cx.out, "KNOWN K2 a {} history encoding accepted under AllowMissingValues with the epoch of tombstoned version 1 altered", what).unwrap();
+                                                    cx.stat("K2_hits");
+                                                } else {
+                                                    cx.fail(format!("C19 [cfg {}]: a {} history encoding decodes to a proof verifying (missing values allowed) to another result", cfg, what));
+                                                }
+                                            }
+                                        }
+                                    }
+                                    _ => {}
+                                }
                                 match catch_unwind(AssertUnwindSafe(|| key_history_verify::<TC>(&pk, eh.1, eh.0, al.clone(), q, vp).map(|rs| rs.iter().map(|x| (x.epoch, x.version, x.value.0.clone())).collect::<Vec<_>>()).map_err(|_| ()))) {
                                     Err(e) => cx.fail(format!("C19 [cfg {}]: PANIC verifying a decoded {} history encoding: {}", cfg, what, panic_msg(e))),
                                     Ok(Ok(v)) => {
